@@ -6,6 +6,7 @@ import ZarrsModel.Driver.C08
 import ZarrsModel.Driver.C09
 import ZarrsModel.Driver.C10
 import ZarrsModel.Driver.C11
+import ZarrsModel.Driver.C14
 import ZarrsModel.Driver.C15
 import ZarrsModel.Driver.C16
 import ZarrsModel.Driver.C17
@@ -48,6 +49,7 @@ def dispatch (st : DState) (l : Line) : Option (DState × List String × Option 
   | some "c20" => (DriverC20.handle st.c01 l).map (fun (s, a, n) => ({ st with c01 := s }, a, n))
   | some "c19" => (DriverC19.handle l).map (fun a => (st, a, none))
   | some "c11" => (DriverC11.handle l).map (fun m => (st, [m], none))
+  | some "c14" => (DriverC14.handle l).map (fun a => (st, a, none))
   | _ => none
 
 partial def loop (h : IO.FS.Stream) (st : DState) (n : Nat) (ok diff bad : Nat) : IO (Nat × Nat × Nat) := do
